@@ -1,18 +1,35 @@
 #!/bin/bash
-# seeded_sweep.sh [ids...]: apply every stored seeded change (seeded/<id>/patch.diff) to /repo in turn, run the quick check
-# of the property it breaks, undo it.  Prints one line per change.  Evidence of these runs goes to .work/mutant_evidence.
+# seeded_sweep.sh [-j N] [ids...]: regression over the stored seeded changes (seeded/<id>/patch.diff).  Each change is applied to a
+# scratch git worktree of /repo's HEAD (never to /repo itself), the quick check of the property it breaks is run against
+# that worktree (VERIF_REPO / VERIF_WORK point the machinery at it), and one line per change is printed.  N worktrees are
+# used side by side (default 4); all of them and their build output are removed at the end.  Evidence of these runs goes to
+# the scratch directory, never to /verif/evidence.
 cd /verif || exit 9
-git -C /repo diff --quiet -- src || { echo "/repo has local changes; refusing"; exit 9; }
+J=4; if [ "$1" = "-j" ]; then J=$2; shift 2; fi
 ids="$@"; [ -z "$ids" ] && ids=$(ls seeded)
-mkdir -p .work/seeded_sweep
-for id in $ids; do
-  d=seeded/$id; [ -f $d/patch.diff ] || continue
-  prop=$(python3 -c "import json; print(json.load(open('$d/meta.json'))['breaks_property'].split('/')[0])")
-  if ! git -C /repo apply --check /verif/$d/patch.diff 2>/dev/null; then echo "$id property=$prop SKIPPED (patch no longer applies to the current tree)"; continue; fi
-  git -C /repo apply /verif/$d/patch.diff
-  VERIF_EVIDENCE_DIR=/verif/.work/mutant_evidence bin/check $prop > .work/seeded_sweep/$id.log 2>&1; rc=$?
-  git -C /repo checkout -- .
-  labs=$(grep "^VIOLATION" .work/seeded_sweep/$id.log | sed 's/.*obligation=//' | cut -d' ' -f1 | sort -u | head -3 | tr '\n' ' ')
-  echo "$id property=$prop exit=$rc ${labs}"
-done
-git -C /repo status --short | grep -v _build
+git -C /repo diff --quiet -- src || { echo "/repo has local changes; refusing"; exit 9; }
+BASE=${SWEEP_BASE:-/tmp/bloch_sweep}
+mkdir -p .work/seeded_sweep $BASE
+worker() {
+  k=$1; shift
+  wt=$BASE/wt$k; wk=$BASE/work$k
+  git -C /repo worktree add --detach -f $wt HEAD >/dev/null 2>&1 || { echo "worker $k: cannot create worktree"; return; }
+  for id in "$@"; do
+    d=seeded/$id; [ -f $d/patch.diff ] || continue
+    prop=$(python3 -c "import json; print(json.load(open('$d/meta.json'))['breaks_property'].split('/')[0])")
+    if ! git -C $wt apply --check /verif/$d/patch.diff 2>/dev/null; then echo "$id property=$prop SKIPPED (patch no longer applies to the current tree)"; continue; fi
+    git -C $wt apply /verif/$d/patch.diff
+    VERIF_REPO=$wt VERIF_WORK=$wk VERIF_EVIDENCE_DIR=$wk/evidence bin/check $prop > .work/seeded_sweep/$id.log 2>&1; rc=$?
+    git -C $wt checkout -- .
+    labs=$(grep "^VIOLATION" .work/seeded_sweep/$id.log | sed 's/.*obligation=//' | cut -d' ' -f1 | sort -u | head -3 | tr '\n' ' ')
+    echo "$id property=$prop exit=$rc ${labs}"
+  done
+  git -C /repo worktree remove --force $wt; rm -rf $wk
+}
+# deal the changes round-robin
+i=0; declare -a Q
+for id in $ids; do Q[$((i % J))]+=" $id"; i=$((i+1)); done
+for k in $(seq 0 $((J-1))); do [ -n "${Q[$k]}" ] && worker $k ${Q[$k]} & done
+wait
+git -C /repo worktree prune; rmdir $BASE 2>/dev/null
+git -C /repo worktree list
